@@ -116,7 +116,11 @@ func genUpload(t *rt.Tape, r *rt.Run, srcDir, tag string, allowOdd bool) *upload
 		}
 		listed := base
 		if allowOdd {
-			switch t.Weighted([]int{14, 1, 1, 1, 1, 1}, "up.namekind") {
+			switch t.Weighted([]int{14, 1, 1, 1, 1, 1, 1}, "up.namekind") {
+			case 6:
+				// the name "/" (or "//"): its last component is "/" again
+				listed = []string{"/", "//"}[t.Draw(2, "up.slashname")]
+				r.Probe("listed-name-is-a-bare-slash")
 			case 1:
 				listed = "sub/" + base
 				r.Probe("name-with-subdirectory")
@@ -257,7 +261,8 @@ func c20Exec(r *rt.Run, w *c20Work, planIdx int, fault simos.Fault, tag string) 
 	fs.MkdirAllQuiet("/queue/incoming/src/sub")
 	fs.PutQuiet(path.Join(u.SrcDir, u.CtlName), u.Ctl)
 	for _, f := range u.Files {
-		if f.Listed != u.CtlName {
+		if f.Listed != u.CtlName && f.SrcPath != u.SrcDir {
+			// (a listed name like "/" resolves to the source directory itself: there is no such file to put)
 			fs.PutQuiet(f.SrcPath, f.Content)
 		}
 	}
@@ -852,5 +857,5 @@ func init() {
 		},
 		Assumptions: []string{"crash = death of the calling process (completed calls persist); power-loss semantics are not modelled because the library never calls fsync and the property does not promise power-fail durability", "after a crash only the every-instant invariants are demanded; the atomic-failure clause is demanded when an error is returned", "a listed name must resolve to a file directly in the control file's own directory: a subdirectory of it is outside (strict reading of the statement)"},
 	})
-	propProbes["C20"] = []string{"listed-name-is-another-listed-name-plus-tmp", "second-upload-with-the-same-file-names", "upload-with-dozens-of-files", "name-listed-only-in-checksum-fields", "second-operation-on-the-same-handle", "destination-holds-hard-links-to-the-source-files", "destination-is-the-source-directory", "traversal-name", "absolute-name", "name-with-subdirectory", "control-file-lists-itself", "file-needs-several-read-write-calls", "uploader-crashed", "EXDEV-on-rename", "fault-on-control-file-create", "fault-on-control-file-write", "fault-on-control-file-close", "fault-on-control-file-rename", "fault-on-first-file", "fault-on-last-file", "crash-between-last-file-and-control-file", "watcher-ran-between-create-and-first-write-of-control-file"}
+	propProbes["C20"] = []string{"listed-name-is-a-bare-slash", "listed-name-is-another-listed-name-plus-tmp", "second-upload-with-the-same-file-names", "upload-with-dozens-of-files", "name-listed-only-in-checksum-fields", "second-operation-on-the-same-handle", "destination-holds-hard-links-to-the-source-files", "destination-is-the-source-directory", "traversal-name", "absolute-name", "name-with-subdirectory", "control-file-lists-itself", "file-needs-several-read-write-calls", "uploader-crashed", "EXDEV-on-rename", "fault-on-control-file-create", "fault-on-control-file-write", "fault-on-control-file-close", "fault-on-control-file-rename", "fault-on-first-file", "fault-on-last-file", "crash-between-last-file-and-control-file", "watcher-ran-between-create-and-first-write-of-control-file"}
 }
